@@ -35,7 +35,7 @@ CLAIMED = {
             "World level, for every benign oracle: one timeout pass of the handler over the file system, whose due prefix consists of plain heads (flags 0, first candidate name free), stores exactly one version of each "
             "with its current content, in queue order; nothing else appears; every other name and inode is unchanged; the journal gets one line per entry; the on-disk queue is the rest and still refines the reference queue; "
             "the wait is that of the rest; no error (composition of the queue refinement, the exact copy and the handler loop). Write and pass composed: a write accepted at t0, any change of the world that leaves the queue directory alone, then a pass: nothing stored before t0 + debounce, "
-            "exactly one version with the content at the pass from then on. Tie: random burst histories at world level incl. a store made unusable for one pass; the burst "
+            "exactly one version with the content at the pass from then on; and in the property's own shape: after ANY history of accepted writes to any number of files interleaved in any order the queue refines the list of (path, time) in order of acceptance, times are sorted so a due entry is never behind one that is not, a path is stored by a pass iff its LAST write is at least the debounce old, and the pass stores exactly one version per such path (content at the pass, order of last writes), skipping superseded duplicates. Tie: random burst histories at world level incl. a store made unusable for one pass; the burst "
             "monitor predicts from the on-disk queue what is due and demands exactly one new version with the current content, the remaining queue and the wait.",
             NOTE + "The world theorem covers plain heads without collision; history, project and collision heads are covered by C08/C11/C04 theorems and by the correspondence. No concurrent writer.",
             "refinement + program-logic composition over the world model; world correspondence + burst monitor"),
@@ -63,11 +63,11 @@ CLAIMED = {
     "C10": ("Theorems: catch only at depth 0 and errors never dropped by finally/try; every call confined under any number of faults. World level, for EVERY oracle, one iteration of the pass over a file head: "
             "a failed call of the copy in the reported class ends the iteration with the error on the trace and the stop result; then no unlinkat was issued and every existing file and link (the head's queue link included) "
             "is still there; the store holds no new entry except when the oracle failed the very unlink of the destination or the copy was complete and the position update failed (K1); the position of a history path is "
-            "not rewound except by a fault inside its own update (then a prefix of the new digits); a crash during the copy keeps every entry; expected conditions (source gone / unreadable / not regular) go on without stopping. "
-            "Tie: every call index of the implementation's own log x plausible errnos for the scenario families (one fault at a time; ENOENT/EACCES always tried at the source open), then release, restart, drain; outcome, error "
-            "trace, log and disk compared with the model; monitors: completed-or-reported, nothing pending lost (files and projects), a failed copy leaves no version, position kept and never ahead of the store.",
-            NOTE + "By the code's design a failing close of the source / of the position file and a failing rmdir in clean_up are not reported (refuted as literal statements, kept as witnesses). Project heads are enumerated, not proved. "
-            "Allocation failures are not injected. Known finding K3.",
+            "not rewound except by a fault inside its own update (then a prefix of the new digits); a crash during the copy keeps every entry; expected conditions (source gone / unreadable / not regular) go on without stopping. Project heads and the member link step, EVERY oracle: a failing call of the reported class ends the pass with an error and the entry still queued, nothing outside the unstable tree changed; per failing call of the link step the unstable entry is old / absent / new as tabulated. "
+            "Tie: every call index of the implementation's own log x plausible errnos for the scenario families (one fault at a time; the expected conditions always tried: ENOENT/EACCES at the source open, EEXIST at an exclusive create, EINVAL at sendfile), then release, restart, drain; outcome, error "
+            "trace, log and disk compared with the model; monitors: completed-or-reported, expected conditions never end in an error, an operation that reports no error leaves what a completed one leaves, nothing pending lost (files and projects), a failed copy leaves no version, position kept and never ahead of the store.",
+            NOTE + "By the code's design a failing close of the source / of the position file and a failing rmdir in clean_up are not reported (refuted as literal statements, kept as witnesses). "
+            "Every allocation of the operation under test fails in turn as well (implementation only). Known findings K3, K4 (partial snapshot after a reported failure), K5 (failing access() read as 'member gone').",
             "program logic for all oracles over the world model; fault enumeration against the model under the same oracle + monitors; trace lemmas"),
     "C11": ("Theorems: the flags of a queued project member round-trip. World level, every benign oracle, BOTH traversal orders: after the snapshot program the new directory holds, at the same relative paths, the same inodes "
             "as the unstable project tree for everything the project still has and nothing else; what the project lost is pruned; intermediate directories exist; store, earlier snapshots and all contents unchanged; "
@@ -82,7 +82,7 @@ CLAIMED = {
             NOTE + "Effective reloads are outside the history theorems (single-event results only). Hypothesis: no name below the offset root leads to the journal inode (necessary: refuted without it).", "induction over the write loop for all chunkings; invariant over event histories for all oracles; world correspondence + journal monitor"),
     "C20": ("Theorems for every oracle: a timeout pass, an exec event and any sequence of events release every descriptor they acquire (count from the call log: opens that returned a descriptor minus closes); "
             "loading acquires exactly what the handler holds and releasing gives it back; a whole session returns the count to its start; with reloads the count moves with what the handler holds. "
-            "Heap: measured on the real code (wrapped allocator): one mixed round repeated 1, 10, 100 times ends with identical live-block and descriptor counts, 0 after release; 2 descriptors after every operation.",
+            "Heap: measured on the real code (wrapped allocator): one mixed round repeated 1, 10, 100 times ends with identical live-block and descriptor counts, 0 after release; 2 descriptors after every operation; the real main() loop over 5-60 scripted events of every kind closes each event's descriptor exactly once.",
             NOTE + "Partial for memory: not expressible in the model (objects are values), measured instead. Two descriptor leaks on error paths that stop the daemon (load_linq after a failed read_entry; reload when the new journal cannot be opened) are stated exactly in the theorems.",
             "call-log counting judgement for all oracles; measurement on the implementation + correspondence"),
     "C07": ("Theorems: the pid table is a set for process ids of any magnitude and any initial size (marked iff the last operation was a set); after any sequence of execution events the table "
@@ -92,7 +92,7 @@ CLAIMED = {
             NOTE + "An executed file must not be the journal itself (side condition of the sequence theorem).", "induction over event histories + refinement of the handler program to the pure machine; differential correspondence + attribution monitor"),
     "C12": ("Theorems over the model of main(): for every command line, mount table, ownership and every combination of failing or ineffective stat/setgroups/setgid/setuid, main's actions are a "
             "start-up phase with no handler load, poll or dispatch, followed by an exit or by loading the handler with non-zero uid, non-zero gid and no supplementary groups; started as root any "
-            "bad condition means the handler is never loaded. Tie: the real main() with every call scripted, exhaustively over stat outcome x 27 switch behaviours x 5 initial credentials.",
+            "bad condition means the handler is never loaded. Tie: the real main() with every call scripted, exhaustively over stat outcome x 27 switch behaviours x 5 initial credentials, with watch roots that do not exist (any interposed call that modifies the file system while uid or gid is 0 is reported), and with every allocation of main() failing in turn in seven start-ups whose drop must fail closed (implementation only).",
             NOTE + "Kernel credential semantics as scripted state machine (uid, gid, number of groups).", "structural theorem over the model of main; exhaustive differential correspondence + order monitor"),
     "C17": ("Theorems over the loop model: a good notification causes exactly one dispatch by kind, one close, one queue service, and the next sleep is what was asked (ms = 1000*s up to INT_MAX/1000, clamped, "
             "negative = indefinite); self writes ignored; poll failure, POLLHUP, failed/short read, bad version, overflow stop the daemon without dispatch; handler failures reported after the close. "
@@ -104,7 +104,7 @@ CLAIMED = {
             NOTE + "Not modelled: octal escapes in /proc/self/mounts; realpath is scripted.", "grammar equivalence + path lemmas; exhaustive differential correspondence + reference parser"),
     "C13": ("Partial. Theorems carry the index arithmetic of the parsers: the project-name scan stays inside the path under the guard handle_timeout checks, the relative path offset never exceeds the length, "
             "decoding a queue link yields a suffix of it, the ELF interpreter string is a NUL-free proper prefix of a fully read buffer, the command-line parser is total. Memory safety of the C itself is "
-            "witnessed on every run by rebuilding the harness with AddressSanitizer + UBSan and running hostile ELF images, hand-written queue directories, paths up to PATH_MAX and every short argv; "
+            "witnessed on every run by rebuilding the harness with AddressSanitizer + UBSan and running hostile ELF images, hand-written queue directories, paths up to PATH_MAX, every short argv, pairs of watch roots (equal, nested, diverging), main() with nested roots, and tables of process ids of any initial size with pids up to 4194303; "
             "any report or abort is a violation, and the processed-or-rejected outcome is compared with the model.",
             NOTE + "Not expressible in the model: lifetimes, frees, libc contracts. Inputs whose outcome depends on the machine (lseek beyond the file system's maximum offset, malloc of gigabytes, paths with '.'/'..' components) run under the sanitizers without model comparison.",
             "bounds lemmas + sanitizer runs + differential correspondence"),
